@@ -367,6 +367,11 @@ type C16WalkCase struct {
 	// KeepContainers: the transform function answers a matched map or list with a freshly built node of equal
 	// content (a replacement all the same: nothing below it is visited) and changes matched scalars only
 	KeepContainers bool `json:"keep_containers,omitempty"`
+	// Identity: the function hands matched containers (and bytes) back as they are — the very node it was given —
+	// and changes the other matched scalars: nodes handed back count as not replaced, the walk continues below them
+	Identity bool `json:"identity,omitempty"`
+	// KindRoot: the root node is built by the kind-specific prototype of the implementation (not Any)
+	KindRoot bool `json:"kind_root,omitempty"`
 }
 
 // c16F is the deterministic transform applied to every matched node.
@@ -405,11 +410,20 @@ func c16WalkCheck(c C16WalkCase, rec *evid.Rec) error {
 		}
 	}
 	want := refsel.Transform(c.G, sel, c16F)
+	keep := func(v val.V) bool { return false }
+	if c.Identity {
+		keep = func(v val.V) bool { return v.K == val.Map || v.K == val.List || v.K == val.Bytes }
+		want = refsel.TransformKeeping(c.G, sel, c16F, keep)
+	}
 	if len(want.Targets) > 2000 {
 		rec.Class("skipped:too-big")
 		return nil
 	}
-	real, err := graph.Realise(c.G, nil)
+	var rootProto datamodel.NodePrototype
+	if c.KindRoot {
+		rootProto = nodes.ProtoFor(nodes.BasicKind, c.G.Root.K)
+	}
+	real, err := graph.Realise(c.G, rootProto)
 	if err != nil {
 		return err
 	}
@@ -430,6 +444,9 @@ func c16WalkCheck(c C16WalkCase, rec *evid.Rec) error {
 				cbErr = err
 			}
 			targets = append(targets, refsel.Visit{Path: p.Path.String(), Reason: "m", Value: v})
+			if keep(v) {
+				return n, nil
+			}
 			return nodes.MustBuild(c16F(v)), nil
 		})
 		return e
@@ -482,10 +499,17 @@ func c16WalkCheck(c C16WalkCase, rec *evid.Rec) error {
 
 var c16Walk = evid.Part[C16WalkCase]{
 	Prop: "C16", Name: "walking", Quick: 2500, Thorough: 1000000,
-	Rule: "(graph, selector) from the C07 generators (subset bounds removed: the transform contract does not define slicing) with WalkTransforming and a deterministic function of the matched value (in a third of the cases one that answers matched containers with a freshly built node of equal content: still a replacement, nothing below it is visited); compared with the reference top-down replacement; non-trivial = at least one target and (a link crossed or ≥2 targets); distinct by (graph, selector)",
+	Rule: "(graph, selector) from the C07 generators (subset bounds removed: the transform contract does not define slicing) with WalkTransforming and a deterministic function of the matched value (in a third of the cases one that answers matched containers with a freshly built node of equal content: still a replacement, nothing below it is visited — and in a quarter one that hands matched containers and bytes back as the very node it was given: not a replacement, the walk continues below; the root is built by Any or by the kind-specific prototype); compared with the reference top-down replacement; non-trivial = at least one target and (a link crossed or ≥2 targets); distinct by (graph, selector)",
 	Gen: func(t *rapid.T) C16WalkCase {
 		c := genGraphSel(t, rapid.IntRange(1, 4).Draw(t, "seldepth"))
-		return C16WalkCase{G: c.G, S: c.S, KeepContainers: rapid.IntRange(0, 2).Draw(t, "keepcontainers") == 0}
+		w := C16WalkCase{G: c.G, S: c.S, KindRoot: rapid.Bool().Draw(t, "kindroot")}
+		switch rapid.IntRange(0, 3).Draw(t, "fmode") {
+		case 0:
+			w.KeepContainers = true
+		case 1:
+			w.Identity = true
+		}
+		return w
 	},
 	Check: c16WalkCheck,
 }.Reg()
